@@ -21,6 +21,11 @@ TEMPLATES = {
     "use-in-comp": "lambda e: [(j.pt, {N}) for j in e.jets if j.pt > 0]",
     "use-twice": "lambda e: ({N}, e.jets.Where(lambda j: j.pt > 1).Select(lambda j: ({N}, j.eta)))",
     "own-param": "lambda {B}: ({B}.a, 1)",
+    "own-param-bare-in-nested": "lambda {B}: {B}.jets.Select(lambda j2: (j2.pt, {B}))",
+    "own-param-bare-depth2": "lambda {B}: {B}.jets.Select(lambda j2: j2.tr.Select(lambda t2: (t2.q, {B})))",
+    "own-param-bare-in-comp": "lambda {B}: [(j2.pt, {B}) for j2 in {B}.jets]",
+    "nested-param-bare-depth2": "lambda e: e.jets.Select(lambda {B}: {B}.tr.Select(lambda t2: (t2.q, {B})))",
+    "comp-iter-same-name": "lambda e: [(e.a, {B}) for {B} in {N}]",
     "nested-param": "lambda e: e.jets.Select(lambda {B}: {B}.pt)",
     "nested-param-depth2": "lambda e: e.jets.Select(lambda j: j.tr.Select(lambda {B}: ({B}.q, j.pt)))",
     "comp-target": "lambda e: [{B}.pt for {B} in e.jets]",
@@ -107,6 +112,9 @@ class C04(Check):
                             if name in ("j", "t") and "{B}" not in TEMPLATES[tname] and \
                                     f"lambda {name}" in TEMPLATES[tname] and source in ("closure", "global"):
                                 continue  # the template itself binds that name around the use: not a capture
+                            if tname == "comp-iter-same-name" and (source not in ("closure", "global") or
+                                                                   vname not in ("list", "tuple", "dict", "set")):
+                                continue  # only a real collection can be iterated; it must then be refused
                             if tname == "attribute-name" and name not in ("a", "b", "v", "j"):
                                 continue
                             if tname == "keyword-name" and name not in ("t", "v", "j"):
@@ -141,7 +149,7 @@ class C04(Check):
                 return a
 
         uses_value = "{N}" in TEMPLATES[tname]
-        if uses_value and source in ("closure", "global") and \
+        if uses_value and source in ("closure", "global") and tname != "comp-iter-same-name" and \
                 name not in refsem.free_names(ast.parse(lam_src, mode="eval").body):
             return {"n": 0, "nt": [], "oc": ["skipped: the shape itself binds that name"], "tags": {}, "viol": []}
         transportable = isinstance(value, LEGAL)
@@ -246,6 +254,10 @@ def derive_class(s):
     return s.Where(
         lambda e: e.a > K.c
     )
+def by_name(e):
+    return (e.a, v)
+def derive_named(s):
+    return s.Select(by_name)
 '''
 
 
@@ -291,6 +303,7 @@ class HModel:
         for i in range(len(w.streams)):
             if w.alive["v"]:
                 ops.append(("derive-global", i))
+                ops.append(("derive-named", i))
             ops.append(("derive-closure", i))
             ops.append(("derive-class", i))
             ops.append(("execute", i))
@@ -316,8 +329,9 @@ class HModel:
         w.last = kind
         viol = []
         if kind.startswith("derive"):
-            fn = {"derive-global": "derive_global", "derive-closure": "derive_closure", "derive-class": "derive_class"}[kind]
-            var = {"derive-global": "v", "derive-closure": "x", "derive-class": "c"}[kind]
+            fn = {"derive-global": "derive_global", "derive-closure": "derive_closure", "derive-class": "derive_class",
+                  "derive-named": "derive_named"}[kind]
+            var = {"derive-global": "v", "derive-closure": "x", "derive-class": "c", "derive-named": "v"}[kind]
             try:
                 s = w.g[fn](w.streams[arg])
             except Exception as e:
